@@ -280,11 +280,11 @@ func runScenario(orig *scenario) *result {
 		}
 		switch st.kind {
 		case "in":
-			conn.feed(st.pkt)
+			conn.feed(clonePkt(st.pkt)) // scenarios share their step lists: the broker gets objects of its own
 		case "inerr":
 			conn.feedErr()
 		case "deq":
-			b.queue <- st.msg
+			b.queue <- cloneMsg(st.msg)
 		case "ack":
 			b.invokeLate(st.k)
 		case "ackall":
@@ -381,6 +381,69 @@ func runScenario(orig *scenario) *result {
 	b.wg.Wait()
 	res.lines = l.snapshot()
 	return res
+}
+
+// clonePkt returns a deep copy of a packet: step lists (and the will messages) are shared between scenarios that run side by
+// side, and a broker that changes a packet it was given in place must not be able to change another scenario's input
+func clonePkt(p packet.Generic) packet.Generic {
+	switch v := p.(type) {
+	case *packet.Connect:
+		c := *v
+		c.Will = cloneMsg(v.Will)
+		return &c
+	case *packet.Connack:
+		c := *v
+		return &c
+	case *packet.Publish:
+		c := *v
+		c.Message = *cloneMsg(&v.Message)
+		return &c
+	case *packet.Puback:
+		c := *v
+		return &c
+	case *packet.Pubrec:
+		c := *v
+		return &c
+	case *packet.Pubrel:
+		c := *v
+		return &c
+	case *packet.Pubcomp:
+		c := *v
+		return &c
+	case *packet.Subscribe:
+		c := *v
+		c.Subscriptions = append([]packet.Subscription(nil), v.Subscriptions...)
+		return &c
+	case *packet.Suback:
+		c := *v
+		c.ReturnCodes = append([]packet.QOS(nil), v.ReturnCodes...)
+		return &c
+	case *packet.Unsubscribe:
+		c := *v
+		c.Topics = append([]string(nil), v.Topics...)
+		return &c
+	case *packet.Unsuback:
+		c := *v
+		return &c
+	case *packet.Pingreq:
+		return &packet.Pingreq{}
+	case *packet.Pingresp:
+		return &packet.Pingresp{}
+	case *packet.Disconnect:
+		return &packet.Disconnect{}
+	}
+	return p
+}
+
+func cloneMsg(m *packet.Message) *packet.Message {
+	if m == nil {
+		return nil
+	}
+	c := *m
+	if m.Payload != nil {
+		c.Payload = append([]byte{}, m.Payload...)
+	}
+	return &c
 }
 
 func okFail(b bool) string {
